@@ -1008,7 +1008,7 @@ pub fn generate(seed: u64) -> Case {
         *forged.slot(field).expect("field exists") = v;
         // a range field can only carry a large value without leaving the packet number space when Largest
         // Acknowledged is large too: both shapes are wanted (work in the first, error handling in the second)
-        if matches!(field, Field::FirstRange | Field::Gap(_) | Field::Range(_)) && v.static_magnitude() >= 256 && !f.one_in(3) {
+        if matches!(field, Field::FirstRange | Field::Gap(_) | Field::Range(_)) && v.static_magnitude() >= 256 && f.chance(0.45) {
             if let Forged::Ack { largest, first_range, .. } = &mut forged {
                 *largest = if f.one_in(2) { Val::max() } else { Val::pow(40) };
                 // exactly one field carries a large value: a first range anchored to a huge Largest would be a second one
